@@ -44,6 +44,14 @@ def rand_opts(rng):
     r = rng.random()
     if r < .15:
         o['energy_thresh'] = float(gens.pick(rng, [10, 50]))
+    if rng.random() < .15:
+        # the same numbers as numpy scalars / arrays (what a caller gets from a config file or another computation)
+        o['max_iters'] = np.int64(o['max_iters'])
+        o['env_step_size'] = np.float64(o['env_step_size'])
+        if 'sd_thresh' in o:
+            o['sd_thresh'] = np.float64(o['sd_thresh'])
+        if 'rilling_thresh' in o:
+            o['rilling_thresh'] = gens.pick(rng, [list, np.array])(o['rilling_thresh'])
     return o
 
 
